@@ -154,3 +154,45 @@ def format_trace(res, maxlen=6000):
         out.append("%s: %s" % (act.split(" line")[0], diff))
         prev = st
     return "\n".join(out)[:maxlen]
+
+
+def extract_tuples(out, tag_regex):
+    """All printed tuples `<<"TAG...", ...>>` in TLC output, robust to TLC's multi-line
+    pretty printing and to interleaved worker output (bracket matching outside strings)."""
+    from .tlaval import parse_value
+
+    found = []
+    for m in re.finditer(r'<<\s*"(?:%s)' % tag_regex, out):
+        j = m.start()
+        depth, k, n = 0, j, len(out)
+        instr = False
+        while k < n:
+            ch = out[k]
+            if instr:
+                if ch == "\\":
+                    k += 2
+                    continue
+                if ch == '"':
+                    instr = False
+                k += 1
+                continue
+            if ch == '"':
+                instr = True
+                k += 1
+                continue
+            if out.startswith("<<", k):
+                depth += 1
+                k += 2
+                continue
+            if out.startswith(">>", k):
+                depth -= 1
+                k += 2
+                if depth == 0:
+                    break
+                continue
+            k += 1
+        try:
+            found.append(parse_value(out[j:k]))
+        except Exception as e:  # a tuple we cannot read must not be dropped silently
+            raise MachineryFailure("cannot parse TLC output tuple: %s ... (%s)" % (out[j : j + 200], e))
+    return found
